@@ -18,9 +18,11 @@ SCHEMA = [
     o_int("zi", 0), o_float("zf", "0"), o_str("zs", "z"), o_list("str", "zl", None),
     # a section whose instances can never be created: one of its defaults does not parse
     o_sec("zsec", [o_int("k", 1), o_list("int", "bad", "{1, 2")], F_MULTI),
+    # two validated strings: the validation callback of the first parses a text into the other context (executor: names "nv...")
+    o_str("nvs", "z", 0, 2), o_str("pvs", "z", 0, 2),
 ]
 HAND["c08"] = SCHEMA
-SACRIFICIAL = {"zi", "zf", "zs", "zl", "zsec"}
+SACRIFICIAL = {"zi", "zf", "zs", "zl", "zsec", "nvs", "pvs"}
 # an option table cfg_init() refuses (a default that does not parse)
 BAD_SCHEMA = [o_int("a", 1), o_list("str", "l", "{a, b"), o_int("dep", 1, 512)]
 
@@ -238,8 +240,12 @@ class C08:
         ("include(\"c08_n1.conf\")\nl += 5\n", {"c08_n1.conf": "a = 3\nnestfree(\"s = x\")\ns = inner\nsec t { x = 2 }\n"}),
     ]
 
+    # the same with an outer input that fails (read error) while the token that triggers the callback is still pending
+    NESTED_FAIL = ["a = 2\nnvs = abc", "single { x = 3 }\nnvs = 'q'\nl += 5\nnvs = abc", "nvs = abc"]
+
     def check_nested(self, case, get_ex):
-        main, files = self.NESTED[case["nested"]]
+        failing = "nested_fail" in case
+        main, files = (self.NESTED_FAIL[case["nested_fail"]], {}) if failing else self.NESTED[case["nested"]]
         fx = fixture_dir()
         base = os.path.join(fx, "c08n")
         res = []
@@ -252,7 +258,11 @@ class C08:
                 s.add("mkfile", hx(os.path.join(base, n)), hx(c.replace("nestfree(", "fn(").replace("nest(", "fn(") if twin else c))
             s.add("init", 1, 0, 0)
             s.add("init", 2, 0, 0)
-            ip = s.add("parse_buf", 1, hx(main.replace("nestfree(", "fn(").replace("nest(", "fn(") if twin else main))
+            if failing:
+                tx = main.replace("nvs", "pvs") if twin else main
+                ip = s.add("parse_fp_fail", 1, hx(tx), len(tx))
+            else:
+                ip = s.add("parse_buf", 1, hx(main.replace("nestfree(", "fn(").replace("nest(", "fn(") if twin else main))
             idd = s.add("dump", 1)
             ip2 = s.add("parse_buf", 1, hx(PROBES[0]))
             s.add("free", 1)
@@ -268,7 +278,12 @@ class C08:
         if not r1.clean:
             return Outcome(failure=Failure("die/%s/nested-parse" % r1.death(), r1.stderr.decode("latin-1")[:1500]), classes=cl, nontrivial=True, sample=sample)
         fail = None
+        inner = [c.get("nested_rc") for c in t1[ip].get("cb", []) if "nested_rc" in c]
+        if any(rc != 0 for rc in inner):
+            fail = Failure("nested-parse/inner-result-differs", "the (valid) text parsed into the other context from a callback returned %r; the outer input was %r" % (inner, main))
         for a, b, what in ((t1[ip], t2[jp], "outer parse"), (t1[ip2], t2[jp2], "next parse")):
+            if fail:
+                break
             da, db = [(f, l) for f, l, m in unhex_diag(a)], [(f, l) for f, l, m in unhex_diag(b)]
             ca = [(c["k"], c["opt"]) for c in a.get("cb", []) if c["opt"] != hx("nest")[1:]]
             cb = [(c["k"], c["opt"]) for c in b.get("cb", []) if c["opt"] != hx("fn")[1:] or True]
@@ -330,7 +345,7 @@ class C08:
         return Outcome(classes=cl, nontrivial=True, failure=fail, sample=sample)
 
     def check_case(self, case, get_ex):
-        if "nested" in case:
+        if "nested" in case or "nested_fail" in case:
             return self.check_nested(case, get_ex)
         if "late" in case:
             return self.check_late(case, get_ex)
@@ -401,6 +416,7 @@ class C08:
                 cases.append({"history": list(h)})
         r.run_cases([{"nested": k} for k in range(len(self.NESTED))], chunksize=1)
         r.run_cases([{"late": k} for k in range(len(self.LATE))], chunksize=1)
+        r.run_cases([{"nested_fail": k} for k in range(len(self.NESTED_FAIL))], chunksize=1)
         r.run_cases(cases, chunksize=20)
         r.exhaustive = True
         r.run_hypothesis(2500 if r.tier == "quick" else 60000)
